@@ -11,7 +11,10 @@ PYTHONPATH=/repo timeout 300 ${SEED_PY:-/venv/bin/python} "$SEED/demo.py" >/tmp/
 if [ -n "$SEED_RUN_TESTS" ]; then
   timeout 1500 /venv/bin/python -m pytest -q -x -p no:cacheprovider --timeout=900 test/arch/mep >/tmp/seed_tests.out 2>&1; T=$?
 else T=skipped; fi
-cd /verif && timeout ${SEED_TIMEOUT:-900} ./check "$PID" "$@" >/tmp/seed_check.out 2>&1; C=$?
+# the evidence of a run against a deliberately broken tree must never replace evidence/<id>.json (the record of the unchanged tree)
+EVD="$(mktemp -d /tmp/seed_evidence.XXXXXX)"
+cd /verif && VERIF_EVIDENCE_DIR="$EVD" timeout ${SEED_TIMEOUT:-900} ./check "$PID" "$@" >/tmp/seed_check.out 2>&1; C=$?
 git -C /repo checkout -- . 
+rm -rf "$EVD"
 echo "seed=$SEED demo_unchanged=$D0 demo_changed=$D1 tests=$T check_exit=$C"
 grep -m3 "VIOLATION\|UNDECIDED\|CHECKER-ERROR" /tmp/seed_check.out | cut -c1-220
